@@ -272,8 +272,8 @@ META = dict(
                 "Not proved: error_in_sink_local (in the declared reading) / match_total / sink_attr_total of DESIGN 4 (the engine is not modelled: "
                 "tested by families A, E, K, T and modes s/d/f/m/w only). model_is_guard_then_primitive + ev_computes_guarded_sites tie ALL seven value-level sites to "
                 "definitions of Ecal.Ev (eval on modint, numOp, delB, addB are equations whose right sides contain the Site functions). "
-                "prims_builtins_agree_with_ev ties the Prims transcriptions of len / del / add / concat / raise to the evaluator's lenB / delB / addB / concatB "
-                "and the raise branch of runBuiltin (same class on every argument vector and heap unless the model leaves itself); range, type and the two "
+                "prims_builtins_agree_with_ev ties the Prims transcriptions of len / del / add / concat / raise / type to the evaluator's lenB / delB / addB / concatB "
+                "and the raise and type branches of runBuiltin (same class on every argument vector and heap unless the model leaves itself); range and the two "
                 "engine transcriptions (sinkAttrSite, stateKeySite) stay transcription-only. `for a in f()` with f returning an iterator never ends: C04's finding, out of scope here. The census is data, not an obligation."),
 )
 
